@@ -307,6 +307,12 @@ func cmdCheck(args []string) int {
 		}
 		if len(s.failed) > 0 {
 			o := s.failed[0]
+			for _, f := range s.failed {
+				if f.Verdict == VSat && f.Model != "" {
+					o = f
+					break
+				}
+			}
 			replay["solver"] = o.Solver
 			replay["solver_output"] = o.Verdict.String() + "\n" + o.Model
 			if rr := tryReplay(w, o, repo); rr != nil {
